@@ -153,7 +153,7 @@ partial def typeBranches (Δ : Decls) (all : Bool) : GoType → List String
 def uniq (l : List String) : List String := dedupBy id l
 
 def outcomeName : R → String
-  | .ok _ => "ok" | .cycle => "cycle" | .nofuel => "nofuel" | .excluded => "excluded" | .err => "err" | .diverge => "diverge"
+  | .ok _ => "ok" | .cycle => "cycle" | .nofuel => "nofuel" | .excluded => "excluded" | .err => "err"
 
 /-- the conditions on a case under which the model speaks about it: declared names distinct and non-empty, the
     type-name generator injective on them (and away from the name of anonymous structs) -/
@@ -170,8 +170,7 @@ def handle (j : Json) : Json :=
   let inDom := hasTypeB Δ t v && wfCase Δ o
   let enc := encode Δ t v
   let (r, σ) := genRoot Δ o (enoughFuel Δ t) t    -- `gen_finite`: never `nofuel`
-  let excl0 := (if heredAll quotedIn Δ t then ["HasQuoted"] else []) ++ (if heredAll dupIn Δ t then ["DupNames"] else []) ++
-    (if hasRecs t || Δ.any (fun d => hasRecsFs d.2) then ["RecContainer"] else [])
+  let excl0 := (if heredAll quotedIn Δ t then ["HasQuoted"] else []) ++ (if heredAll dupIn Δ t then ["DupNames"] else [])
   let optBr := (if all then ["useAll"] else []) ++ (if o.throwCycle then ["opt.throw"] else []) ++ (if o.cust then ["opt.cust"] else []) ++
     (if o.exp then ["opt.export"] else []) ++ (if o.exp && o.expTop then ["opt.exportTop"] else []) ++
     (if o.exp && o.expGenerics then ["opt.exportGenerics"] else []) ++ (if o.tng.isSome then ["opt.typeNames"] else [])
